@@ -554,4 +554,62 @@ def linSearch : Nat → MapSt → List Rec → Bool
 
 def linearizableB (m0 : MapSt) (h : List Rec) : Bool := linSearch h.length m0 h
 
+/-! ### `Length()` of the set utilities in recorded histories, and quiescent reads after concurrent removals -/
+
+/-- a call of a recorded history: one of the modelled methods, or `Length()` of ConcurrentSets / GenericConcurrentSets
+    (util/list/concurrent_set.go:69-71, generic_concurrent_set.go:69-71: `len(r.ToArray())`, ToArray = one `cm.Range`
+    collecting the keys) over the key universe `ks` of the history (distinct keys; every key the history uses is in it).
+    Only its sequential specification is modelled. -/
+inductive HOp
+  | op (o : Op)
+  | length (ks : List Nat)
+deriving DecidableEq, Repr
+
+/-- the sequential specification: `Length` = the number of keys present; the set is left as it is -/
+def HOp.spec : HOp → MapSt → MapSt × Res
+  | .op o, m => o.spec m
+  | .length ks, m => (m, .got (some (snapshot m ks).length) false)
+
+/-- a completed call (possibly a `Length`) with its invocation and response times -/
+structure HRec where
+  op : HOp
+  res : Res
+  inv : Nat
+  ret : Nat
+deriving DecidableEq, Repr
+
+def Rec.lift (r : Rec) : HRec := ⟨.op r.op, r.res, r.inv, r.ret⟩
+
+/-- `linSearch` over histories that may contain `Length` calls (same search, `HOp.spec`) -/
+def linSearchH : Nat → MapSt → List HRec → Bool
+  | 0, _, pending => pending.isEmpty
+  | fuel + 1, m, pending =>
+    pending.isEmpty ||
+    (List.range pending.length).any fun i =>
+      match pending[i]? with
+      | none => false
+      | some c =>
+        pending.all (fun o => !(decide (o.ret < c.inv))) &&
+        (let r := c.op.spec m
+         r.2 == c.res && linSearchH fuel r.1 (eraseIdx' pending i))
+
+def linearizableHB (m0 : MapSt) (h : List HRec) : Bool := linSearchH h.length m0 h
+
+/-- what a SEQUENTIAL execution of the call queues leaves (thread 0's calls, then thread 1's, …) -/
+def seqFinal (m0 : MapSt) (queues : List (List Op)) : MapSt :=
+  queues.flatten.foldl (fun m op => (op.spec m).1) m0
+
+/-- the keys of `ks` present in `m`, in the order of `ks` -/
+def presentKeys (m : MapSt) (ks : List Nat) : List Nat := ks.filter fun k => (m k).isSome
+
+/-- the quiescent observation after the queues have run: (Length(), len(ToArray()), the keys for which Exists answers true) -/
+def quiescentObs (m0 : MapSt) (queues : List (List Op)) (ks : List Nat) : Nat × Nat × List Nat :=
+  let m := seqFinal m0 queues
+  ((snapshot m ks).length, (snapshot m ks).length, presentKeys m ks)
+
+/-- the keys a list of set calls removes / puts -/
+def removedKeys (ops : List Op) : List Nat := ops.filterMap fun | .remove k => some k | _ => none
+def putKeys (ops : List Op) : List Nat := ops.filterMap fun | .put k => some k | _ => none
+
+
 end Ioc.Conc
